@@ -231,6 +231,40 @@ func ruleLintNarrow(c *Ctx, r *Rep) {
 			r.Check(base == 10, "decimal-parse|"+c.FuncKey(fn), c.Pos(ci.Pos()), "base 10 (a count or octet written with leading zeros is still decimal)", sprintf("base %d", base))
 		}
 	}
+	// a 64-bit number changes its sign when converted between signed and unsigned: a configured value of 2^63 and above
+	// would become negative (a negative serial number, a negative count)
+	for _, fn := range c.Funcs {
+		if fn.Pkg == nil || !strings.Contains(fn.Pkg.Pkg.Path(), "/config") {
+			continue // configured numbers enter through the configuration packages; internal counts are not at stake
+		}
+		n := 0
+		for _, b := range fn.Blocks {
+			for _, ins := range b.Instrs {
+				cv, ok := ins.(*ssa.Convert)
+				if !ok {
+					continue
+				}
+				to, ok1 := cv.Type().Underlying().(*types.Basic)
+				from, ok2 := cv.X.Type().Underlying().(*types.Basic)
+				if !ok1 || !ok2 {
+					continue
+				}
+				if _, isConst := cv.X.(*ssa.Const); isConst {
+					continue
+				}
+				wide := func(k types.BasicKind) bool {
+					return k == types.Uint64 || k == types.Int64 || k == types.Uint || k == types.Int || k == types.Uintptr
+				}
+				unsigned := func(b *types.Basic) bool { return b.Info()&types.IsUnsigned != 0 }
+				if !wide(to.Kind()) || !wide(from.Kind()) || unsigned(to) == unsigned(from) || !unsigned(from) {
+					continue // only unsigned -> signed of full width loses the top half
+				}
+				n++
+				_, ub := boundsFromGuards(b, cv.X)
+				r.Check(ub != nil, sprintf("sign-change|%s#%d", c.FuncKey(fn), n), c.Pos(cv.Pos()), "an unsigned 64-bit value is range-tested before it becomes a signed one", "converted unchecked")
+			}
+		}
+	}
 	for _, fn := range c.Funcs {
 		for _, b := range fn.Blocks {
 			for _, ins := range b.Instrs {
